@@ -209,13 +209,13 @@ func resolveRoles(p *Program) {
 							if !ok {
 								continue
 							}
-							fr, okf := fieldRefOfAddr(fa)
+							fr, okf := fieldRefOfAddrRaw(fa)
 							if !okf || fr.Type != r.typ || fr.Pkg != r.pkg {
 								continue
 							}
 							if prm == nil || derivesFrom(x.Val, prm, 0) {
 								cands[fr.Field] = true
-								if in, okIn := fieldRefOf(fa.X.Type(), fa.Field); okIn && in.Type != fr.Type {
+								if in, okIn := fieldRefOfRaw(fa.X.Type(), fa.Field); okIn && in.Type != fr.Type {
 									partOf[fr.Field] = in.Type // the field lives in a grouping sub-struct of r.typ
 								}
 							}
@@ -879,6 +879,16 @@ func canonName(fn *ssa.Function) string {
 var debugRoles = os.Getenv("FSCHECK_DEBUG_ROLES") != ""
 
 func debugTypeRoles() {
+	for k, v := range toActual {
+		if !strings.HasSuffix(k, "."+v) {
+			fmt.Printf("field %s -> %s\n", k, v)
+		}
+	}
+	for f, c := range funcCanon {
+		if f.Name() != c {
+			fmt.Printf("func %s -> %s\n", f.String(), c)
+		}
+	}
 	for o, c := range typeCanon {
 		fmt.Printf("typeCanon %s.%s -> %s\n", o.Pkg().Name(), o.Name(), c)
 	}
